@@ -493,7 +493,7 @@ class FanBeamGeometry(DivergentBeamGeometry):
         """
         squeeze_out = (np.shape(angle) == ())
         angle = np.array(angle, dtype=float, copy=False, ndmin=1)
-        src_shifts = self.src_shift_func(angle)
+        src_shifts = np.array(self.src_shift_func(angle), dtype=float, ndmin=2)
 
         # Initial vector from the rotation center to the source. It can be
         # computed this way since source and detector are at maximum distance,
@@ -1436,7 +1436,7 @@ class ConeBeamGeometry(DivergentBeamGeometry, AxisOrientedGeometry):
         angle = np.array(angle, dtype=float, copy=False, ndmin=1)
         rot_matrix = self.rotation_matrix(angle)
         extra_dims = angle.ndim
-        src_shifts = self.src_shift_func(angle)
+        src_shifts = np.array(self.src_shift_func(angle), dtype=float, ndmin=2)
 
         # Initial vector from center of rotation to source.
         # It can be computed this way since source and detector are at
